@@ -117,6 +117,8 @@ def carrier_cases():
             meta = {"opt": opt, "val": val, "want": want}
             for name, carrier in (("stylua.toml", "toml"), (".stylua.toml", "dot-toml")):
                 cases.append(mk("carrier", f"{opt}={val}:{carrier}", dict(pf, **{name: M.toml_text(want)}), ["."], carrier=carrier, **meta))
+            cases.append(mk("carrier", f"{opt}={val}:config-path", dict(pf, **{"cfg/alt.toml": M.toml_text(want)}),
+                            ["--config-path", "cfg/alt.toml", "."], carrier="config-path", **meta))
             ctx_flags = []
             for k, v in CONTEXT.get(opt, {}).items():
                 ctx_flags += flag_argv(k, v)
@@ -125,6 +127,10 @@ def carrier_cases():
                 base = dict(CONTEXT.get(opt, {}), **{opt: other_value(opt, val)})
                 cases.append(mk("carrier", f"{opt}={val}:flag-over-toml", dict(pf, **{"stylua.toml": M.toml_text(base)}),
                                 flag_argv(opt, val) + ["."], carrier="flag-over-toml", base=base, **meta))
+                # the flag on top of a configuration file named with --config-path (holding another value),
+                # and the value itself in a file named with --config-path
+                cases.append(mk("carrier", f"{opt}={val}:flag-over-config-path", dict(pf, **{"cfg/alt.toml": M.toml_text(base)}),
+                                ["--config-path", "cfg/alt.toml"] + flag_argv(opt, val) + ["."], carrier="flag-over-config-path", base=base, **meta))
                 if opt in M.ENUMS:
                     for variant in ("lower", "upper"):
                         cases.append(mk("carrier", f"{opt}={val}:flag-{variant}", pf, ctx_flags + flag_argv(opt, val, variant) + ["."],
@@ -340,7 +346,7 @@ def judge_carrier_group(key, group, acc, found_by_case):
 
         bad = [p for p in exp if got.get(p) != exp[p]]
         want_rc = 2 if any_err else 0
-        label = {"dot-toml": "dot-toml", "flag-over-toml": "flag", "toml+flags": "toml+flags"}.get(carrier, carrier)
+        label = {"dot-toml": "dot-toml", "flag-over-toml": "flag", "toml+flags": "toml+flags", "flag-over-config-path": "flag+config-path"}.get(carrier, carrier)
         if carrier != "toml" and toml_out is not None and any(got.get(p) != toml_out.get(p) for p in exp):
             p = [p for p in exp if got.get(p) != toml_out.get(p)][0]
             report(f"C20:{label}-vs-toml:{where}",
